@@ -67,6 +67,12 @@ func C14(ctx *core.Ctx) int {
 	progs := paddingPrograms()
 	progs = append(progs, dsl.P5()...)
 	progs = append(progs, dsl.P6()...)
+	// identifier shapes: what a naming helper does with a name may depend on state another generator left behind
+	for i, p := range dsl.P4() {
+		if ctx.Thorough() || strings.Contains(p.Name, "initialism") || strings.Contains(p.Name, "acronym") || strings.Contains(p.Name, "collide") || i%4 == 0 {
+			progs = append(progs, p)
+		}
+	}
 	p1 := dsl.P1()
 	for i, p := range p1 {
 		if ctx.Thorough() || i%6 == 0 || strings.Contains(p.Name, "match") || strings.Contains(p.Name, "lenof") {
@@ -99,7 +105,7 @@ func C14(ctx *core.Ctx) int {
 	bin := ctx.BuildRepoBinary("pinned")
 	var cliProgs []*dsl.Program
 	for i, p := range progs {
-		if ctx.Thorough() || strings.HasPrefix(p.Name, "PAD/") || strings.HasPrefix(p.Name, "P5/") || strings.HasPrefix(p.Name, "P6/") || i%5 == 0 {
+		if ctx.Thorough() || strings.HasPrefix(p.Name, "PAD/") || strings.HasPrefix(p.Name, "P5/") || strings.HasPrefix(p.Name, "P6/") || strings.HasPrefix(p.Name, "P4/") || i%5 == 0 {
 			cliProgs = append(cliProgs, p)
 		}
 	}
